@@ -102,6 +102,21 @@ func normalizeHelpers(repo, tags, path string, known func(key string) bool) (map
 		unknown := map[*types.Func]*ast.FuncDecl{}
 		fileOf := map[*ast.FuncDecl]*ast.File{}
 		takesFunc := map[*types.Func]bool{}
+		takesStream := map[*types.Func]bool{}
+		hasStreamParam := func(fd *ast.FuncDecl) bool {
+			if fd.Type.Params == nil {
+				return false
+			}
+			for _, fl := range fd.Type.Params.List {
+				if t := p.TypesInfo.TypeOf(fl.Type); t != nil {
+					switch tstr(t, nil) {
+					case "io.Reader", "io.Writer", "io.ReaderFrom", "io.WriterTo":
+						return true
+					}
+				}
+			}
+			return false
+		}
 		for _, f := range p.Syntax {
 			for _, d := range f.Decls {
 				fd, ok := d.(*ast.FuncDecl)
@@ -127,7 +142,7 @@ func normalizeHelpers(repo, tags, path string, known func(key string) bool) (map
 						}
 					}
 					if streamy {
-						continue
+						takesStream[obj] = true // left alone where the serialisation code calls it
 					}
 					unknown[obj] = fd
 					fileOf[fd] = f
@@ -170,6 +185,19 @@ func normalizeHelpers(repo, tags, path string, known func(key string) bool) (map
 						otherUse[fn] = true
 						return true
 					}
+					if takesStream[fn] {
+						// inside a serialisation method, or a helper that is itself handed the stream
+						inCodec := false
+						for _, dd := range f.Decls {
+							if fd, ok := dd.(*ast.FuncDecl); ok && call.Pos() >= fd.Pos() && call.End() <= fd.End() && (fd.Name.Name == "WriteTo" || fd.Name.Name == "ReadFrom" || hasStreamParam(fd)) {
+								inCodec = true
+							}
+						}
+						if inCodec {
+							otherUse[fn] = true
+							return true
+						}
+					}
 					if takesFunc[fn] {
 						// inside a serialisation method the function argument is the codec closure: left to the FMT engine
 						inCodec := false
@@ -197,6 +225,10 @@ func normalizeHelpers(repo, tags, path string, known func(key string) bool) (map
 		sort.Slice(sites, func(i, j int) bool { return sites[i].call.Pos() < sites[j].call.Pos() })
 		callsUnknown := map[*types.Func]bool{}
 		for _, s := range sites {
+			// a nested call that already proved impossible to inline does not hold its caller back
+			if failed[fmt.Sprintf("%s:%s:%d", p.Fset.Position(s.file.Pos()).Filename, s.fn.Name(), p.Fset.Position(s.call.Pos()).Offset)] {
+				continue
+			}
 			for fn, d := range unknown {
 				if s.call.Pos() >= d.Pos() && s.call.End() <= d.End() {
 					callsUnknown[fn] = true
